@@ -99,8 +99,11 @@ def r3(ctx):
         # idiom 1: result.entry(key).or_default().push(value)
         ent = ents[0]
         ks = b.slice_op(ent[1]["args"][1])
+        kalt = transforms(b, ent[1]["args"][1], allow=LOWER)
         if not (ks.has_call(LOWER) and ks.has_call(r"HeaderName::as_str$")):
             yield VIOL("C11-R3", "normalize_headers/key", "map key is not the lower-cased header name", where=b.span_of_block(ent[0]))
+        elif kalt or len([d for d in b.defs().get(root_local(b, ent[1]["args"][1]) or -1, []) if d["kind"] != "mutcall"]) > 1:
+            yield VIOL("C11-R3", "normalize_headers/key", "the map key is not the header's own lower-cased name as it is (through %s / several sources): a header is filed under another name, so the presence and prefix tests of the requirement rules no longer see it" % [c_.split("::")[-1] for c_ in kalt], where=b.span_of_block(ent[0]))
         else:
             yield PASS("C11-R3", "normalize_headers/key", "key = name.as_str().to_lowercase()", [site(b, ent[0], "entry")])
         p = one(ps, "value push in normalize_headers")
